@@ -134,19 +134,29 @@ func genC14Elem(g *Gen, e ElemInst, tier string) []HarnessSrc {
 		"\tx := %s\n\tit := %s\n\tref := %s\n\tvx.Assert(deriveContains%s(x, it) == ref(x, it), \"Contains iff some element is Equal\")\n",
 		nd(LT, "x"), nd(E, "it"), containsFn, id)))
 	// Unique
+	uqOpt := ""
 	uq := fmt.Sprintf("\tx := %s\n\tsnap := append(%s(nil), x...)\n\tcontains := %s\n\tout := deriveUnique%s(x)\n"+
 		"\tdistinct := true\n\tfor i := 0; i < len(out); i++ {\n\t\tfor j := i + 1; j < len(out); j++ {\n\t\t\tif %s {\n\t\t\t\tdistinct = false\n\t\t\t}\n\t\t}\n\t}\n"+
 		"\tvx.Assert(distinct, \"pairwise non-Equal\")\n"+
 		"\tcovers, sound := true, true\n\tfor i := 0; i < len(snap); i++ {\n\t\tif !contains(out, snap[i]) {\n\t\t\tcovers = false\n\t\t}\n\t}\n"+
 		"\tfor i := 0; i < len(out); i++ {\n\t\tif !contains(snap, out[i]) {\n\t\t\tsound = false\n\t\t}\n\t}\n"+
 		"\tvx.Assert(covers, \"covers every input element\")\n\tvx.Assert(sound, \"only input elements\")\n",
-		nd(LT, "x"), LT.Expr(), containsFn, id, eq("out[i]", "out[j]"))
+		ndo(LT, "x", uqOpt), LT.Expr(), containsFn, id, eq("out[i]", "out[j]"))
 	if !e.Comparable {
 		uq += fmt.Sprintf("\tvar exp %s\n\tfor i := 0; i < len(snap); i++ {\n\t\tif !contains(exp, snap[i]) {\n\t\t\texp = append(exp, snap[i])\n\t\t}\n\t}\n"+
 			"\tfirst := len(out) == len(exp)\n\tfor i := 0; i < len(out) && i < len(exp); i++ {\n\t\tif !%s {\n\t\t\tfirst = false\n\t\t}\n\t}\n\tvx.Assert(first, \"first occurrences in order\")\n",
 			LT.Expr(), g.elemSame(e, "out[i]", "exp[i]"))
 	}
 	out = append(out, h("VX_C14_unique_"+id, "unique", uq))
+	if E.K == "ptr" && E.Elem.K == "named" && E.Elem.Name == "Leaf" {
+		// longer lists over a three-value element domain: reaches the states of the in-place compaction
+		// where an earlier duplicate has been dropped and a kept element's original slot overwritten
+		long := fmt.Sprintf("\tx := vx.NondetOpt[%s](\"x\", \"len=5,cap=0,str=0,depth=1\")\n\tfor i := 0; i < len(x); i++ {\n\t\tvx.Assume(x[i] != nil && x[i].I >= 0 && x[i].I <= 2)\n\t}\n"+
+			"\tsnap := append(%s(nil), x...)\n\tout := deriveUnique%s(x)\n\tvar exp %s\n\tfor i := 0; i < len(snap); i++ {\n\t\tseen := false\n\t\tfor j := 0; j < len(exp); j++ {\n\t\t\tif exp[j].I == snap[i].I {\n\t\t\t\tseen = true\n\t\t\t}\n\t\t}\n\t\tif !seen {\n\t\t\texp = append(exp, snap[i])\n\t\t}\n\t}\n"+
+			"\tok := len(out) == len(exp)\n\tfor i := 0; i < len(out) && i < len(exp); i++ {\n\t\tif out[i] != exp[i] {\n\t\t\tok = false\n\t\t}\n\t}\n\tvx.Assert(ok, \"Unique keeps exactly the first occurrences, in order (lists up to 5 over 3 values)\")\n",
+			LT.Expr(), LT.Expr(), id, LT.Expr())
+		out = append(out, h("VX_C14_uniquelong_"+id, "uniquelong", long))
+	}
 	// Set (comparable elements only)
 	if e.Comparable && E.K != "ptr" {
 		out = append(out, h("VX_C14_set_"+id, "set", fmt.Sprintf(
